@@ -31,7 +31,7 @@ def budget(tier):
 
 
 def profile():
-    return gm.make_profile()
+    return gm.make_profile(p_cfg_ts_bytes_attr=0.3, p_alias_of_alias=0.2)
 
 
 def run_shard(tier, seed, idx, n, res, tmp):
